@@ -26,8 +26,17 @@ class C18(CfProp):
         cases = []
         nmax = 4 if tier == "quick" else 5
         while len(cases) < n:
+            r0 = rng.random()
+            if r0 < 0.1:
+                g, ev = GEV.three_world_case(rng)
+                cases.append({"g": g, "event": ev})
+                continue
             g = self.rand_case(rng, nmax)
-            ev = GEV.structured_event(rng, g) if rng.random() < 0.2 else None
+            ev = None
+            if r0 < 0.3:
+                ev = GEV.structured_event(rng, g)
+            elif r0 < 0.45:
+                ev = GEV.two_parent_event(rng, g)
             cases.append({"g": g, "event": ev or GEV.rand_event(rng, g["nodes"])})
         return cases
 
